@@ -63,9 +63,80 @@ def calls_on_field(b, callee_re, adt_suffix, field):
     return out
 
 
+def _rec_by_protocol(ctx, rid):
+    """Decide rule `rid` of the REC family from the record reader's state-machine table (record_protocol) when the
+    abstract interpretation is conclusive: every state / outcome has at least one row and every row is definite (a
+    state and outcome may have several rows -- the code decides on something else as well, the length of the
+    payload say; a clause then has to hold for every one of them). Returns True when decided."""
+    prot = record_protocol(ctx)
+    if not prot or prot['exhausted']:
+        return False
+    T = prot['table']
+    want = [(w, o) for w in (False, True) for o in ('Ok:Full', 'Ok:First', 'Ok:Middle', 'Ok:Last', 'Err:Corruption', 'Err:NotAvailable', 'Err:IoError')]
+    if any(k not in T or not T[k] or any(r_[2] is None or r_[3] == '?' for r_ in T[k]) for k in want):
+        return False
+    rows = {k: sorted(T[k], key=str) for k in want}      # [(cleared, appended, within_after, result)]
+    b = prot['body']
+    span = b.span
+    def every(keys, pred):
+        return all(pred(r_) for k in keys for r_ in rows[k])
+    def show(keys):
+        return '; '.join('%s/%s -> %s' % (('in' if k[0] else 'out'), k[1].split(':')[1], ' | '.join('clear=%s append=%s within=%s %s' % r_ for r_ in rows[k])) for k in keys)
+    if rid == 'REC1':
+        keys = [(False, 'Ok:Middle'), (False, 'Ok:Last')]
+        ok = every(keys, lambda r_: not r_[1])
+        ctx.check(ok, '%s:append' % b.path, span, 'a Middle / Last frame outside an entry is not appended (%s)' % show(keys),
+                  'frame payload appended to the entry buffer outside an entry (%s): Middle/Last frames after a damaged frame would be glued to a stale prefix' % show(keys))
+    elif rid == 'REC2':
+        for v in ('IoError', 'Corruption'):
+            keys = [(False, 'Err:%s' % v), (True, 'Err:%s' % v)]
+            ok = every(keys, lambda r_: r_[2] == 0 and r_[3] == 'Err(%s)' % v)
+            ctx.check(ok, '%s:err-exit:%s' % (b.path, v), span, 'a frame-reader %s leaves the entry and is reported (%s)' % (v, show(keys)),
+                      'after a frame-reader %s the record reader stays inside the entry or does not report it (%s): the frames that follow would be glued to the damaged entry' % (v, show(keys)))
+    elif rid == 'REC3':
+        may = [k for k in want if any(r_[3] == 'Ok(true)' for r_ in rows[k])]
+        must = [k for k in want if all(r_[3] == 'Ok(true)' for r_ in rows[k])]
+        target = {(False, 'Ok:Full'), (True, 'Ok:Full'), (True, 'Ok:Last')}
+        ok = set(may) == target and set(must) == target
+        ctx.check(ok, '%s:ok-true' % b.path, span, 'an entry is delivered exactly on Full, or on Last inside an entry',
+                  'an entry can be delivered without a closing Last/Full frame or outside an entry, or a closed entry is not delivered (delivered on: %s)' % sorted('%s/%s' % ('in' if k[0] else 'out', k[1]) for k in may))
+    elif rid == 'REC4':
+        keys = [(False, 'Ok:First'), (True, 'Ok:First'), (False, 'Ok:Full'), (True, 'Ok:Full')]
+        k2 = [(False, 'Ok:Middle'), (False, 'Ok:Last')]
+        opened_ok = every(keys[:2], lambda r_: r_[2] == 1) and every(k2, lambda r_: r_[2] == 0)
+        ctx.check(opened_ok, '%s:start' % b.path, span, 'an entry is opened by First, never by Middle / Last (%s)' % show(keys[:2] + k2),
+                  'an entry can be opened by a frame that is not First/Full, or First does not open one (%s)' % show(keys[:2] + k2))
+        fresh = every(keys, lambda r_: r_[0] and r_[1])
+        ctx.check(fresh, '%s:fresh-buffer' % b.path, span, 'First / Full clear the buffer, then append, whatever the state (%s)' % show(keys),
+                  'a First/Full frame does not start from a cleared buffer (%s): bytes of an abandoned entry would prefix the new one' % show(keys))
+    elif rid == 'REC6':
+        keys = [(w, 'Ok:%s' % v) for w in (False, True) for v in ('Full', 'First', 'Middle', 'Last')]
+        ok = every(keys, lambda r_: not r_[3].startswith('Err'))
+        ctx.check(ok, '%s:valid-frame-never-errors' % b.path, span, 'no valid frame makes the record reader return an error',
+                  'a frame that passed its checksum can make the record reader return an error (%s): the frame is consumed and dropped' % show([k for k in keys if any(r_[3].startswith('Err') for r_ in rows[k])]))
+    elif rid == 'REC8':
+        keys = [(False, 'Err:NotAvailable'), (True, 'Err:NotAvailable')]
+        ok = every(keys, lambda r_: r_[3] == 'Ok(false)')
+        ctx.check(ok, '%s:end-of-log' % b.path, span, 'the end of the log is answered Ok(false) in either state (%s)' % show(keys),
+                  'the end of the log (NotAvailable) is not answered Ok(false) in every state (%s): replay skips a Corruption and asks again, and the end of the log answers the same thing again -- open would never return; an error instead would make a log with a torn tail unopenable' % show(keys))
+    elif rid == 'REC7':
+        keys = [(True, 'Ok:Middle'), (False, 'Ok:First'), (True, 'Ok:First')]
+        ok = every(keys, lambda r_: r_[2] == 1) and every([(True, 'Ok:Last')], lambda r_: r_[2] == 0 and r_[3] == 'Ok(true)')
+        whole = every([(True, 'Ok:Middle'), (True, 'Ok:Last')], lambda r_: r_[1])
+        ctx.check(whole, '%s:frames-appended' % b.path, span, 'inside an entry every Middle / Last payload is appended (%s)' % show([(True, 'Ok:Middle'), (True, 'Ok:Last')]),
+                  'inside an entry a Middle / Last payload is not appended, or is wiped after being appended (%s): the entry would be delivered with a fragment missing' % show([(True, 'Ok:Middle'), (True, 'Ok:Last')]))
+        ctx.check(ok, '%s:ok-arm-clear#1' % b.path, span, 'on a valid frame within_record is cleared only when the entry is delivered (%s)' % show(keys + [(True, 'Ok:Last')]),
+                  'a valid frame can leave the entry without delivering it, or an open entry is closed by a Middle/First frame (%s)' % show(keys + [(True, 'Ok:Last')]))
+    else:
+        return False
+    return True
+
+
 @rule('REC1', ['C02', 'C08', 'C12', 'C18'], floor=1, template='guard-dominates-use')
 def rec1(ctx):
     """Frame payloads are appended to the entry buffer only while inside an entry."""
+    if _rec_by_protocol(ctx, 'REC1'):
+        return
     bs = rec_bodies(ctx)
     if not bs:
         ctx.missing('rec-body', 'no body stores RecordReader.within_record')
@@ -81,6 +152,8 @@ def rec1(ctx):
 @rule('REC2', ['C02', 'C08', 'C09', 'C12', 'C18'], floor=2, template='must-store-on-error')
 def rec2(ctx):
     """Every error exit of the record reader forgets the partially assembled entry."""
+    if _rec_by_protocol(ctx, 'REC2'):
+        return
     for b in rec_bodies(ctx):
         resets = [p for (p, pl, rv) in stores_to(b, 'RecordReader', 'within_record') if const_store_val(rv) == 0]
         for e in b.exits():
@@ -95,6 +168,8 @@ def rec2(ctx):
 @rule('REC3', ['C02', 'C08', 'C12', 'C18'], floor=1, template='guard-dominates-exit')
 def rec3(ctx):
     """An entry is delivered only after a Last frame, while inside an entry."""
+    if _rec_by_protocol(ctx, 'REC3'):
+        return
     for b in rec_bodies(ctx):
         guards = list(reads_field_switches(b, 'RecordReader.within_record'))
         lasts = list(b.switches_on_call(lambda c: c.path.endswith('FrameType::is_last_frame_of_record')))
@@ -112,6 +187,8 @@ def rec7(ctx):
     reader's result `within_record` is cleared only where the entry is delivered (the store is followed by the
     return, never by another read). Entries whose first frame is empty, or that span many blocks, are assembled
     from frames that carry no other information than their type."""
+    if _rec_by_protocol(ctx, 'REC7'):
+        return
     n = 0
     for b in rec_bodies(ctx):
         for cs in b.calls:
@@ -136,9 +213,34 @@ def rec7(ctx):
         ctx.missing('ok-arm-clear', 'no clearing of within_record on the Ok arm of the frame reader result (the delivery of an entry)')
 
 
+@rule('REC8', ['C10', 'C07', 'C11'], floor=1, template='no-reach')
+def rec8(ctx):
+    """The end of the log is not an error and not a corruption, whatever the record reader was doing: NotAvailable
+    from the frame reader is answered Ok(false), also in the middle of an entry (a torn tail is the NORMAL state after
+    a crash). Replay skips Corruption and reads on; the end of the log is sticky, so a Corruption answered there is
+    answered for ever (open never returns), and an error there makes the log unopenable."""
+    if _rec_by_protocol(ctx, 'REC8'):
+        return
+    RFE = 'frame::reader::ReadFrameError'
+    for b in rec_bodies(ctx):
+        for (bi, pl, adt, edges) in b.discr_switches():
+            if adt != RFE or 'NotAvailable' not in edges:
+                continue
+            r_ = b.reach([edges['NotAvailable'][1]])
+            bad = [e for e in b.exits() if e['point'] in r_ and not (e['kind'] == 'ok' and e['ops'] and op_const_bits(e['ops'][0]) == 0)]
+            # only exits that the arm itself decides: exits also reachable from the other arms through the loop are theirs
+            loop_back = any(cs.point in r_ for cs in b.calls if cs.dest_local() is not None and RFE in b.local_ty(cs.dest_local()))
+            if loop_back:
+                bad = bad or [{'point': edges['NotAvailable'][1]}]
+            ctx.check(not bad, '%s:end-of-log' % b.path, where(b, edges['NotAvailable'][1]), 'the NotAvailable arm only returns Ok(false)',
+                      'the end of the log (NotAvailable) is not answered Ok(false) on every path: replay skips a Corruption and asks again, and the end of the log answers the same thing again -- open would never return')
+
+
 @rule('REC4', ['C02', 'C03', 'C08', 'C12', 'C18'], floor=1, template='must-pass-through')
 def rec4(ctx):
     """An entry starts only at a First/Full frame, with a cleared buffer."""
+    if _rec_by_protocol(ctx, 'REC4'):
+        return
     for b in rec_bodies(ctx):
         sets = [p for (p, pl, rv) in stores_to(b, 'RecordReader', 'within_record') if const_store_val(rv) == 1]
         firsts = list(b.switches_on_call(lambda c: c.path.endswith('FrameType::is_first_frame_of_record')))
@@ -563,7 +665,8 @@ def fr9(ctx):
             if cs.path.endswith('Header::deserialize') and cs.dest_local() is not None:
                 re_ = result_edges(b, cs.dest_local())
                 good += re_['err']
-        for c in const_comparisons(ctx, b, 'BLOCK_NUM_BYTES'):
+        from rules_codec import bound_comparisons
+        for c in bound_comparisons(ctx, b, 'BLOCK_NUM_BYTES'):
             lv = expr_leaves(b, c['x'])
             if not any(x[0] == 'call' and x[1].node is not None and ctx.f.bodies[x[1].node].path.startswith('frame::header::Header::') for x in lv):
                 continue
@@ -773,6 +876,8 @@ def rec6(ctx):
     """The record reader never turns a VALID frame into an error: error exits are reachable only from the
     error arms of the frame reader's result (a valid First/Full frame after an unfinished entry starts a
     new entry, it is not dropped)."""
+    if _rec_by_protocol(ctx, 'REC6'):
+        return
     n = 0
     for b in rec_bodies(ctx):
         for cs in b.calls:
@@ -903,3 +1008,72 @@ def fr10(ctx):
                   'Header::check can answer true without the computed checksum having matched the stored one: damaged bytes would be accepted as a frame')
     if n == 0:
         ctx.missing('answers', 'no assignment of the result found in Header::check')
+
+
+def record_protocol(ctx):
+    """What the record reader does with each outcome of the frame reader, by abstract interpretation (absint.py): for
+    within_record in {false, true} and the frame reader answering Ok(Full | First | Middle | Last) or an error, whether
+    the entry buffer is cleared / appended to, what within_record is afterwards, and whether the call returns (and what)
+    or goes back to the frame reader. Independent of how the state machine is spelt (nested ifs, early continue,
+    `within_record = !is_last`, a helper taking the two fields ..).
+    Returns {'table': {(within, outcome): set of (cleared, appended, within_after, result)}, 'exhausted': bool} or None."""
+    if hasattr(ctx, '_record_protocol'):
+        return ctx._record_protocol
+    from absint import AbsInt, Path, UNK
+    res = None
+    FT = 'frame::header::FrameType'
+    for b in rec_bodies(ctx):
+        if b.generic_dup():
+            continue
+        rf = [cs for cs in b.calls if cs.dest_local() is not None and 'frame::reader::ReadFrameError' in b.local_ty(cs.dest_local())]
+        if not rf:
+            continue
+        cs0 = rf[0]
+        clears = {cs.point for cs in calls_on_field(b, r'Vec::<u8>::(clear|truncate)$', 'RecordReader', 'record_buffer')}
+        apps = {cs.point for cs in calls_on_field(b, r'Vec::<u8>::(extend_from_slice|extend|push|append|resize|insert)', 'RecordReader', 'record_buffer')}
+        R = 'std::result::Result'
+        RFE = 'frame::reader::ReadFrameError'
+        outcomes = [('Ok:%s' % v, ('adt', R, 'Ok', (('tup', (('adt', FT, v, ()), UNK)),))) for v in ('Full', 'First', 'Middle', 'Last')] + \
+                   [('Err:%s' % v, ('adt', R, 'Err', (('adt', RFE, v, (UNK,) if v == 'IoError' else ()),))) for v in ('Corruption', 'NotAvailable', 'IoError')]
+        table = {}
+        ai = AbsInt(ctx)
+        for within in (0, 1):
+            for (oname, oval) in outcomes:
+                def on_call(p, cs, args, oval=oval):
+                    if cs is cs0:
+                        if p.data.get('fed'):
+                            return [(UNK, {'data': {'again': True}})]
+                        return [(oval, {'data': {'fed': True}})]
+                    # only what is done with *this* frame counts: a clear before the frame was read (at the top of the
+                    # call, say) happens once per call, not once per First / Full frame
+                    if cs.point in clears:
+                        if p.data.get('fed') and p.data.get('appended'):
+                            return [(UNK, {'data': {'appended': False, 'cleared': False}})]      # wiped what it had just appended
+                        return [(UNK, {'data': {'cleared': True} if p.data.get('fed') else {}})]
+                    if cs.point in apps:
+                        return [(UNK, {'data': {'appended': True} if p.data.get('fed') else {}})]
+                    return None
+                def on_block(p, bi):
+                    if p.data.get('again'):
+                        return 'again'
+                    return None
+                outs = ai.run(b, Path(b.points[b.entry][0], {('m', 'RecordReader.within_record'): ('i', within)}, {}, [], {}), on_call=on_call, on_block=on_block)
+                for (kind, p) in outs:
+                    if kind not in ('again', 'return'):
+                        continue
+                    wa = p.env.get(('m', 'RecordReader.within_record'), UNK)
+                    wa = wa[1] if isinstance(wa, tuple) and wa and wa[0] == 'i' else None
+                    if kind == 'again':
+                        r_ = 'again'
+                    else:
+                        v = p.env.get(0, UNK)
+                        r_ = '?'
+                        if isinstance(v, tuple) and v and v[0] == 'adt' and v[2] == 'Ok' and v[3] and isinstance(v[3][0], tuple) and v[3][0][0] == 'i':
+                            r_ = 'Ok(%s)' % ('true' if v[3][0][1] else 'false')
+                        elif isinstance(v, tuple) and v and v[0] == 'adt' and v[2] == 'Err' and v[3] and isinstance(v[3][0], tuple) and v[3][0][0] == 'adt':
+                            r_ = 'Err(%s)' % v[3][0][2]
+                    table.setdefault((bool(within), oname), set()).add((bool(p.data.get('cleared')), bool(p.data.get('appended')), wa, r_))
+        res = {'table': table, 'exhausted': ai.exhausted, 'body': b}
+        break
+    ctx._record_protocol = res
+    return res
